@@ -235,6 +235,96 @@ theorem readByte_safe {r : Rdr} (h : r.WF) : Safe r.readByte := by
   exact Safe.ok _
 
 
+/-- `r'` is `r` with every frame's position moved forward by `k` (same input, same nesting, same frame lengths) -/
+def Step : Rdr → Rdr → Nat → Prop
+  | .slice b p, .slice b' p', k => b' = b ∧ p' = p + k
+  | .nested i n p, .nested i' n' p', k => n' = n ∧ p' = p + k ∧ Step i i' k
+  | .slice _ _, .nested _ _ _, _ => False
+  | .nested _ _ _, .slice _ _, _ => False
+
+theorem Step.refl (r : Rdr) : Step r r 0 := by
+  induction r with
+  | slice b p => exact ⟨rfl, rfl⟩
+  | nested i n p ih => exact ⟨rfl, rfl, ih⟩
+
+theorem Step.trans {a b c : Rdr} {j k : Nat} (h1 : Step a b j) (h2 : Step b c k) : Step a c (j + k) := by
+  induction a generalizing b c with
+  | slice ba pa =>
+    cases b with
+    | nested _ _ _ => exact absurd h1 (by simp [Step])
+    | slice bb pb =>
+      cases c with
+      | nested _ _ _ => exact absurd h2 (by simp [Step])
+      | slice bc pc =>
+        simp only [Step] at *
+        exact ⟨by rw [h2.1, h1.1], by rw [h2.2, h1.2]; omega⟩
+  | nested ia na pa ih =>
+    cases b with
+    | slice _ _ => exact absurd h1 (by simp [Step])
+    | nested ib nb pb =>
+      cases c with
+      | slice _ _ => exact absurd h2 (by simp [Step])
+      | nested ic nc pc =>
+        simp only [Step] at *
+        exact ⟨by rw [h2.1, h1.1], by rw [h2.2.1, h1.2.1]; omega, ih h1.2.2 h2.2.2⟩
+
+theorem readSlice_step {r : Rdr} (h : r.WF) {n : Nat} {s : List Nat} {r' : Rdr}
+    (hr : r.readSlice n = .ok (s, r')) : Step r r' n := by
+  induction r generalizing s r' with
+  | slice b p =>
+    unfold Rdr.readSlice at hr
+    simp only [h.1, if_true] at hr
+    split at hr
+    · cases ha : lenAdd p n with
+      | error e => simp [ha, Bind.bind, Except.bind] at hr
+      | ok m =>
+        obtain ⟨hm, _⟩ := lenAdd_ok ha
+        simp [ha, Bind.bind, Except.bind, Pure.pure, Except.pure] at hr
+        rw [← hr.2, hm]; exact ⟨rfl, rfl⟩
+    · cases ha : lenAdd p n <;> simp [ha, Bind.bind, Except.bind] at hr
+  | nested i len p ih =>
+    unfold Rdr.readSlice at hr
+    cases ha : lenAdd p n with
+    | error e => simp [ha, Bind.bind, Except.bind] at hr
+    | ok np =>
+      obtain ⟨hnp, _⟩ := lenAdd_ok ha
+      simp only [ha, Bind.bind, Except.bind] at hr
+      split at hr
+      · cases hin : i.readSlice n with
+        | error e => simp [hin] at hr
+        | ok v =>
+          obtain ⟨s0, i'⟩ := v
+          simp [hin, Pure.pure, Except.pure] at hr
+          rw [← hr.2, hnp]
+          exact ⟨rfl, rfl, ih h.1 hin⟩
+      · cases hx : lenAdd i.offset n with
+        | error e => simp [hx] at hr
+        | ok _ =>
+          simp only [hx] at hr
+          cases hy : (Rdr.nested i len p).remainingLen with
+          | error e => simp [hy] at hr
+          | ok rl =>
+            simp only [hy] at hr
+            cases hz : lenAdd i.offset rl <;> simp [hz] at hr
+
+theorem readByte_readSlice {r : Rdr} {b : Nat} {r' : Rdr} (hr : r.readByte = .ok (b, r')) :
+    ∃ s, r.readSlice 1 = .ok (s, r') := by
+  unfold Rdr.readByte at hr
+  cases hs : r.readSlice 1 with
+  | error e => simp [hs, Bind.bind, Except.bind] at hr
+  | ok v =>
+    obtain ⟨s, r1⟩ := v
+    simp only [hs, Bind.bind, Except.bind] at hr
+    cases hd : dassert (s.length == 1) with
+    | error e => simp [hd] at hr
+    | ok _ =>
+      simp only [hd] at hr
+      cases hi : index s 0 with
+      | error e => simp [hi] at hr
+      | ok x =>
+        simp [hi, Pure.pure, Except.pure] at hr
+        exact ⟨s, by rw [hr.2]⟩
+
 /-- facts that every successful read preserves -/
 structure Adv (r r' : Rdr) (k : Nat) : Prop where
   off : r'.offset = r.offset + k
@@ -243,19 +333,21 @@ structure Adv (r r' : Rdr) (k : Nat) : Prop where
   ilen : r'.inputLen = r.inputLen
   pos : r'.position = r.position + k
   shape : r'.shape = r.shape
+  step : Step r r' k
 
 theorem Adv.trans {a b c : Rdr} {j k : Nat} (h1 : Adv a b j) (h2 : Adv b c k) : Adv a c (j + k) :=
   ⟨by rw [h2.off, h1.off]; omega, by rw [h2.input, h1.input], h2.wf, by rw [h2.ilen, h1.ilen],
-   by rw [h2.pos, h1.pos]; omega, by rw [h2.shape, h1.shape]⟩
+   by rw [h2.pos, h1.pos]; omega, by rw [h2.shape, h1.shape], h1.step.trans h2.step⟩
 
 theorem readSlice_adv {r : Rdr} (h : r.WF) {n : Nat} {s : List Nat} {r' : Rdr}
     (hr : r.readSlice n = .ok (s, r')) : Adv r r' n := by
   obtain ⟨_, _, h3, h4, h5, h6, h7, h8⟩ := readSlice_spec h hr
-  exact ⟨h3, h4, h5, h6, h7, h8⟩
+  exact ⟨h3, h4, h5, h6, h7, h8, readSlice_step h hr⟩
 
 theorem readByte_adv {r : Rdr} (h : r.WF) {b : Nat} {r' : Rdr} (hr : r.readByte = .ok (b, r')) : Adv r r' 1 := by
   obtain ⟨_, h3, h4, h5, h6, h7, h8⟩ := readByte_spec h hr
-  exact ⟨h3, h4, h5, h6, h7, h8⟩
+  obtain ⟨s, hs⟩ := readByte_readSlice hr
+  exact ⟨h3, h4, h5, h6, h7, h8, readSlice_step h hs⟩
 
 /-- the accumulation of `Length::decode` over a byte list -/
 def beFold (acc : Nat) (bs : List Nat) : Nat := bs.foldl (fun a b => a * 256 % 4294967296 + b) acc
@@ -268,7 +360,7 @@ theorem lengthBytes_spec {r : Rdr} (h : r.WF) {n acc v : Nat} {r' : Rdr}
     simp [lengthBytes] at hr
     obtain ⟨hv, hr'⟩ := hr
     subst hv hr'
-    exact ⟨⟨rfl, rfl, h, rfl, rfl, rfl⟩, by simp, by simp [beFold]⟩
+    exact ⟨⟨rfl, rfl, h, rfl, rfl, rfl, Step.refl _⟩, by simp, by simp [beFold]⟩
   | succ n ih =>
     unfold lengthBytes at hr
     cases hb : r.readByte with
